@@ -1189,6 +1189,13 @@ class FileBuilder:
             self._dirs_to_make(os.path.dirname(filename), created_files)
         except OSError:
             return False
+        if (operation.raised and
+                self._simple_operation_executor.exists(
+                    filename, created_files)):
+            # There is something at the location of the file we failed to
+            # build. If we executed the operation, then we would remove it
+            # first, or we would fail in a different way if it's a directory.
+            return False
 
         created_files.started_building_file(filename)
 
